@@ -206,6 +206,7 @@ def main(argv=None):
     a = ap.parse_args(argv)
 
     t0 = time.time()
+    os.environ['VERIF_SHARD'] = str(a.shard)
     try:
         env.register_asdf()  # do not depend on an installed entry point / egg-info next to the sources
     except Exception:
